@@ -46,6 +46,7 @@ func checkAtomicReplace(p *Program, obs *obSet, sp atomicSpec) {
 		obs.lost(sp.root)
 		return
 	}
+	targetNeverUnlinked(p, obs, sp, fn)
 	var sites flowSites
 	renameFrame := map[int]*sframe{}
 	cleanupDone := map[*ssa.Function]bool{}
@@ -668,4 +669,77 @@ func stateCacheCoherent(p *Program, obs *obSet) {
 		return
 	}
 	obs.ok(key, p.Pos(set.Pos()), "every successful return is dominated by a store of the arguments (or nil) into the cached state that State() answers from")
+}
+
+
+// targetNeverUnlinked: the whole point of write-temporary-then-rename is that the final name always names a complete
+// file: the old one until the rename, the new one from it on. Removing (or truncating, or re-creating) the final name
+// first opens a window in which a crash leaves NO file under it — and the constructors then delete the only copy, the
+// temporary, as a leftover. In the function and the in-scope functions it calls, the only path handed to
+// os.Remove/os.RemoveAll/os.Truncate/os.Create/os.WriteFile is the temporary's own Name().
+func targetNeverUnlinked(p *Program, obs *obSet, sp atomicSpec, root *ssa.Function) {
+	key := "the final name is never removed, truncated or re-created before the rename in " + sp.root
+	var bad []string
+	seen := map[*ssa.Function]bool{}
+	n := 0
+	var walk func(fn *ssa.Function, d int)
+	walk = func(fn *ssa.Function, d int) {
+		if fn == nil || seen[fn] || d > 3 || !p.InScope[fn] {
+			return
+		}
+		seen[fn] = true
+		for _, a := range fn.AnonFuncs {
+			walk(a, d+1)
+		}
+		for _, b := range fn.Blocks {
+			for _, in := range b.Instrs {
+				ci, ok := in.(ssa.CallInstruction)
+				if !ok {
+					continue
+				}
+				cc := ci.Common()
+				if g := cc.StaticCallee(); g != nil && p.InScope[g] {
+					walk(g, d+1)
+				}
+				if mc, ok := cc.Value.(*ssa.MakeClosure); ok {
+					walk(mc.Fn.(*ssa.Function), d+1)
+				}
+				name := calleeName(cc)
+				switch name {
+				case "os.Remove", "os.RemoveAll", "os.Truncate", "os.Create", "os.WriteFile":
+				default:
+					continue
+				}
+				n++
+				arg := resolve(nil, cc.Args[0])
+				okTmp := false
+				if nc, ok := arg.(*ssa.Call); ok && calleeName(nc.Common()) == "(*os.File).Name" {
+					recv := resolve(nil, nc.Common().Args[0])
+					switch r := recv.(type) {
+					case *ssa.Parameter, *ssa.FreeVar:
+						okTmp = true // the temporary handed to a helper / captured by the cleanup closure
+					case *ssa.Extract:
+						if tc, ok := r.Tuple.(*ssa.Call); ok && (calleeName(tc.Common()) == "os.CreateTemp" || calleeName(tc.Common()) == "os.MkdirTemp") {
+							okTmp = true
+						}
+					case *ssa.UnOp:
+						// a captured / spilled local holding the CreateTemp result
+						if _, isField := r.X.(*ssa.FieldAddr); !isField {
+							okTmp = true
+						}
+					}
+				}
+				if !okTmp {
+					bad = append(bad, name+"("+describe(nil, cc.Args[0])+") at "+p.InstrPos(in))
+				}
+			}
+		}
+	}
+	walk(root, 0)
+	if len(bad) > 0 {
+		obs.fail(key, p.Pos(root.Pos()), "a path other than the temporary's own name is removed, truncated or re-created: "+strings.Join(bad, "; ")+
+			" — if that is the final name, a crash between this call and the rename leaves no "+sp.what+" file at all, and the next start deletes the temporary (the only complete copy) as a leftover", nil)
+		return
+	}
+	obs.ok(key, p.Pos(root.Pos()), fmt.Sprintf("%d removal/creation call(s), each on the temporary's own Name()", n))
 }
